@@ -214,7 +214,7 @@ func genPeriod(t *rapid.T) uint64 {
 
 func genBase(t *rapid.T) (int64, int64) {
 	var sec int64
-	switch weighted(t, "baseClass", 3, 5, 2, 1, 1) {
+	switch weighted(t, "baseClass", 3, 5, 2, 1, 1, 4) {
 	case 0:
 		sec = rapid.Int64Range(0, 4000).Draw(t, "baseSmall")
 	case 1:
@@ -223,8 +223,11 @@ func genBase(t *rapid.T) (int64, int64) {
 		sec = rapid.Int64Range(0, 1<<40).Draw(t, "baseMid")
 	case 3:
 		sec = rapid.Int64Range(1<<40, 1<<62-1<<36).Draw(t, "baseHuge")
-	default:
+	case 4:
 		sec = 1<<31 - 100 + rapid.Int64Range(0, 200).Draw(t, "base2038")
+	default:
+		// around a daylight-saving change of one of the presentation zones
+		sec = rapid.SampledFrom(DSTInstants).Draw(t, "baseDST") + rapid.Int64Range(-7500, 7500).Draw(t, "baseDSTOff")
 	}
 	nsec := rapid.SampledFrom([]int64{0, 1, 999_999_999, 500_000_000, 123_456_789}).Draw(t, "baseNsec")
 	return sec, nsec
@@ -350,7 +353,7 @@ func genAccount(t *rapid.T, prop string, kind string) Account {
 		badW = 1
 	}
 	if weighted(t, "badStore?", 14, badW) == 1 {
-		a.BadStore = rapid.IntRange(1, 4).Draw(t, "badStore")
+		a.BadStore = rapid.IntRange(1, 8).Draw(t, "badStore")
 	}
 	if weighted(t, "badAlgo?", 14, badW) == 1 {
 		a.Algo = rapid.SampledFrom([]int{3, 4, 200, 255}).Draw(t, "badAlgo")
@@ -375,7 +378,7 @@ func genAccount(t *rapid.T, prop string, kind string) Account {
 		a.TokOffsetS = rapid.Int64Range(-90, 90).Draw(t, "tokOffS")
 		a.TokOffsetNs = rapid.Int64Range(0, 999_999_999).Draw(t, "tokOffNs")
 		a.DriftPPM = rapid.IntRange(-300, 300).Draw(t, "drift")
-		a.Zone = rapid.IntRange(0, 4).Draw(t, "zone")
+		a.Zone = rapid.IntRange(0, 9).Draw(t, "zone")
 		a.Mono = rapid.Bool().Draw(t, "mono")
 	case "ocra":
 		a.Suite = genSuiteSpec(t, misc)
